@@ -179,7 +179,14 @@ def _config(item):
             fh.close()
     cfg = f"{name} via {arming}/{kind} threshold {threshold}"
     failing = name in FAILING
-    sev = None if failing else EXPECTED.get(name) or COMPUTED.get(name) or ("LIKELY_UNSAFE" if name == "unsafe-call" else "LIKELY_SAFE")
+    sev = None
+    if not failing:
+        # the gate is judged against the library's own verdict for these bytes (whether that verdict is high enough is
+        # C04's business); the comparison with the threshold goes through the independent rank table
+        import fickling.fickle as _fk
+        from fickling.analysis import check_safety as _cs
+
+        sev = _cs(_fk.Pickled.load(data)).severity.name
     cfg = f"{name} via {arming}/{kind} threshold {threshold}"
     if how == "returned":
         if failing:
